@@ -6,9 +6,11 @@ import CJ.Drv.Util
 repeats the previous message.
 * cfg: `<enableV4>,<enableV6>,<shareOverAPI>,<transports sep ' '>,<blocklist: hex/ones sep ' '>`
 * wire: `G` (undecodable) or
-  `M,<payload>,<v4sup>,<v6sup>,<registrant>,<source>,<transport>,<libver>,<prescanned>,<rr>,<oracles>` with
-  registrant = `-` (absent) | `e` (present, empty) | hex; rr = `-` | `<dport>:<ipv4>:<ipv6>` (each `-` if absent);
-  oracles = `<sel4>:<sel6>:<paramsOk>:<tpPort>:<proto>:<geoOk>:<covertOk>:<live>:<ident>` with sel = `-` | `<hex>/<rnd>`.
+  `M,<payload>,<v4sup>,<v6sup>,<registrant>,<source>,<transport>,<libver>,<prescanned>,<rr>,<oracles>,<disableOverrides>,<rrOracles>` with
+  registrant = `-` (absent) | `e` (present, empty) | hex; rr = `-` | `<dport>:<ipv4>:<ipv6>:<tparams 0/1>` (each `-` if absent);
+  oracles = `<sel4>:<sel6>:<paramsOk>:<tpPort>:<proto>:<geoOk>:<covertOk>:<live>:<ident>` with sel = `-` | `<hex>/<rnd>`
+  (paramsOk / tpPort: the transport's verdicts on the CLIENT's parameters); rrOracles = `<paramsOk>:<tpPort>`: its verdicts on
+  the registrar's parameter override (the model decides which are in force).
 Answer per message: `<w4>,<w6>;<parse>;<events>;<state4>,<state6>`. -/
 namespace CJ.Drv.Ingest
 open CJ.Ingest CJ.Drv
@@ -31,7 +33,7 @@ def parseSel (s : String) : Option (Option (Bytes × Bool)) :=
 def parseRR (s : String) : Option (Option RR) :=
   if s == "-" then some none
   else match s.splitOn ":" with
-    | [p, a4, a6] => do some (some { dstPort := ← optNat p, ipv4 := ← optNat a4, ipv6 := ← optBytes a6 })
+    | [p, a4, a6, tp] => do some (some { dstPort := ← optNat p, ipv4 := ← optNat a4, ipv6 := ← optBytes a6, tparams := ← parseBool tp })
     | _ => none
 
 def parseOracles (s : String) : Option Oracles :=
@@ -44,10 +46,14 @@ def parseOracles (s : String) : Option Oracles :=
 def parseWire (s : String) : Option Wire :=
   match s.splitOn "," with
   | ["G"] => some .garbage
-  | ["M", pl, v4, v6, rg, src, tr, lv, ps, rr, orc] => do
+  | ["M", pl, v4, v6, rg, src, tr, lv, ps, rr, orc, dis, rro] => do
     let m : Msg := { payload := ← parseBool pl, v4Support := ← parseBool v4, v6Support := ← parseBool v6, registrant := ← optBytes rg,
-                     source := ← src.toNat?, transport := ← tr.toNat?, libVer := ← lv.toNat?, prescanned := ← parseBool ps, rr := ← parseRR rr }
-    some (.msg m (← parseOracles orc))
+                     source := ← src.toNat?, transport := ← tr.toNat?, libVer := ← lv.toNat?, prescanned := ← parseBool ps, rr := ← parseRR rr,
+                     disableOverrides := ← parseBool dis }
+    let ro : RROracles ← (match rro.splitOn ":" with
+      | [pk, tp] => do some { paramsOk := ← parseBool pk, tpPort := ← optNat tp }
+      | _ => none)
+    some (.msg m (resolveOracles m (← parseOracles orc) ro))
   | _ => none
 
 def parseNet (s : String) : Option (Bytes × Nat) :=
